@@ -1,4 +1,5 @@
 import NunavutVerif.Lemmas.Tpl
+import NunavutVerif.Lemmas.FilePP
 import NunavutVerif.Gen.TplFlows
 import NunavutVerif.Properties.C15
 /-!
@@ -215,6 +216,100 @@ theorem C10_output_independent_of_history {δ : Type} (I : Interp δ) (P : List 
   · intro s hs
     rw [← i₁.1 s hs, ← i₂.1 s hs]
     exact hamb s hs
+
+/-! ### T8: file post-processors (`SetFileMode`, `ExternalProgramEditInPlace`) and the order of post-processing
+
+`Model/FilePP.lean`: what `_generate_code` / `SupportGenerator._copy_header` issue for one output file given the generator's
+list of post-processor objects, the objects threaded from file to file, and the execution of those operations against
+a file system with an arbitrary external program. -/
+
+section FilePostProcessors
+open NunavutVerif.FilePP
+
+/-- A call of a file post-processor leaves the object as it was — in particular `ExternalProgramEditInPlace.__call__`
+builds a fresh `run_args` list and does not touch `_command_line`. -/
+theorem C10_file_pp_call_leaves_object_unchanged (py : LineBuffer.Str) (ren : Nat → LineBuffer.Str → LineBuffer.Str) :
+    Sem.Pure (callReal py ren) := callReal_pure py ren
+
+/-- What is issued for a file — the resets, the write through the line post-processors, then every file
+post-processor of the list exactly once, in list order, with the path its predecessor returned, the command line of
+the external program being the configured one followed by that path only — is the same function of (the generator's
+list, the file) in every run: whichever files were generated before it, in whichever order, in this or in earlier runs
+of the same generator objects (`pre₁`, `pre₂` arbitrary), and whatever follows. -/
+theorem C10_file_pp_invocations_independent_of_run (py : LineBuffer.Str) (ren : Nat → LineBuffer.Str → LineBuffer.Str)
+    (objs : List Obj) (pre₁ post₁ pre₂ post₂ : List FilePP.Job) (j : FilePP.Job) :
+    (runEvents (callReal py ren) objs (pre₁ ++ j :: post₁)).1[pre₁.length]? = some (fileEvents (callReal py ren) objs j).1 ∧
+    (runEvents (callReal py ren) objs (pre₂ ++ j :: post₂)).1[pre₂.length]? = some (fileEvents (callReal py ren) objs j).1 := by
+  simp [runEvents_pure _ (callReal_pure py ren)]
+
+/-- The list the command line builds (`--pp-trim-trailing-whitespace`, `--pp-max-emptylines`, `--pp-run-program P`
+`--pp-run-program-arg A…`, `--file-mode M`), spelled out: per generated file the line post-processors are reset, the text
+is written through them, then the program is run once as `P A… <file>` (`sys.executable` in front iff `P` ends in
+`.py`) with `check=True`, and only then the file mode is set. -/
+theorem C10_cli_file_pp_sequence (py : LineBuffer.Str) (ren : Nat → LineBuffer.Str → LineBuffer.Str) (trim limit : Bool)
+    (P : LineBuffer.Str) (args : List LineBuffer.Str) (mode : Nat) (path bytes : LineBuffer.Str) (allow : Bool) :
+    (fileEvents (callReal py ren) (cliObjs trim limit (some (P, args)) mode) ⟨.generate, path, bytes, allow⟩).1 =
+      (lineIds (cliObjs trim limit none mode)).map Event.reset ++
+      [.overwrite path allow, .write path bytes (lineIds (cliObjs trim limit none mode)),
+       .exec (if endsWithPy P then py :: P :: (args ++ [path]) else P :: (args ++ [path])) true,
+       .chmod path mode] := by
+  cases trim <;> cases limit <;>
+    simp [fileEvents, cliObjs, classify, lineIds, callAll, callReal, Obj.isFilePP, runArgs]
+
+/-- The bytes and the permission bits of a generated file do not depend on which other files are generated, in which
+order, before or after it: after ANY completed run that contains job `j` they are what generating `j` alone gives.
+For every list of built-in post-processors (any number of external programs and `SetFileMode`s in any order), every
+external program that is an in-place editor (modifies at most the file it is given last; what it does depends on its
+command line and the files named there) and all file systems that agree on the file itself, the interpreter and the
+configured arguments.  Output paths are pairwise different from `j`'s (C11) and are not configured arguments. -/
+theorem C10_file_bytes_independent_of_other_files (prog : Prog) (ren : Nat → LineBuffer.Str → LineBuffer.Str)
+    (defMode : Nat) (py : LineBuffer.Str) (objs : List Obj) (hb : builtinOnly objs = true)
+    (hF : prog.EditsLastOnly (py :: cfgArgs objs)) (hL : prog.Local)
+    (pre₁ post₁ pre₂ post₂ : List FilePP.Job) (j : FilePP.Job)
+    (hout₁ : ∀ k ∈ pre₁ ++ j :: post₁, k.path ∉ py :: cfgArgs objs)
+    (hout₂ : ∀ k ∈ pre₂ ++ j :: post₂, k.path ∉ py :: cfgArgs objs)
+    (hd₁ : ∀ k ∈ pre₁ ++ post₁, k.path ≠ j.path) (hd₂ : ∀ k ∈ pre₂ ++ post₂, k.path ≠ j.path)
+    (fs₁ fs₂ : FS) (hagree : ∀ q, (q = j.path ∨ q ∈ py :: cfgArgs objs) → fs₁ q = fs₂ q)
+    (hok₁ : (runWorld prog ren defMode (callReal py ren) objs (pre₁ ++ j :: post₁) fs₁).err = none)
+    (hok₂ : (runWorld prog ren defMode (callReal py ren) objs (pre₂ ++ j :: post₂) fs₂).err = none) :
+    (runWorld prog ren defMode (callReal py ren) objs (pre₁ ++ j :: post₁) fs₁).fs j.path =
+      (runWorld prog ren defMode (callReal py ren) objs (pre₂ ++ j :: post₂) fs₂).fs j.path := by
+  have h₁ := run_file_independent prog ren defMode py objs hb hF hL pre₁ post₁ j hout₁
+    (fun k hk => hd₁ k (List.mem_append_left _ hk)) (fun k hk => hd₁ k (List.mem_append_right _ hk)) fs₁ fs₁
+    (fun _ _ => rfl) hok₁
+  have h₂ := run_file_independent prog ren defMode py objs hb hF hL pre₂ post₂ j hout₂
+    (fun k hk => hd₂ k (List.mem_append_left _ hk)) (fun k hk => hd₂ k (List.mem_append_right _ hk)) fs₂ fs₁
+    (fun q hq => (hagree q hq).symm) hok₂
+  rw [h₁.1, h₂.1]
+
+/-- `SetFileMode` last in the list (where the command line puts it): after any completed run every generated file has
+exactly the configured permission bits — whatever they were before the run, whatever `_handle_overwrite` and the
+external program did to them, whichever files were generated besides it. -/
+theorem C10_set_file_mode_effect_independent (prog : Prog) (ren : Nat → LineBuffer.Str → LineBuffer.Str)
+    (defMode : Nat) (py : LineBuffer.Str) (front : List Obj) (mode : Nat) (hb : builtinOnly front = true)
+    (hF : prog.EditsLastOnly (py :: cfgArgs (front ++ [.setMode mode]))) (hL : prog.Local)
+    (pre post : List FilePP.Job) (j : FilePP.Job)
+    (hout : ∀ k ∈ pre ++ j :: post, k.path ∉ py :: cfgArgs (front ++ [.setMode mode]))
+    (hd : ∀ k ∈ pre ++ post, k.path ≠ j.path) (fs : FS)
+    (hok : (runWorld prog ren defMode (callReal py ren) (front ++ [.setMode mode]) (pre ++ j :: post) fs).err = none) :
+    ((runWorld prog ren defMode (callReal py ren) (front ++ [.setMode mode]) (pre ++ j :: post) fs).fs j.path).map File.mode
+      = some mode := by
+  have hb' : builtinOnly (front ++ [.setMode mode]) = true := by
+    clear hF hout hok
+    induction front with
+    | nil => rfl
+    | cons o os ih => cases o <;> simp_all [builtinOnly]
+  have h := run_file_independent prog ren defMode py _ hb' hF hL pre post j hout
+    (fun k hk => hd k (List.mem_append_left _ hk)) (fun k hk => hd k (List.mem_append_right _ hk)) fs fs
+    (fun _ _ => rfl) hok
+  rw [h.1]
+  have herr := h.2
+  unfold fileWorld at herr ⊢
+  obtain ⟨evs, hevs⟩ := fileEvents_setMode_last py ren front mode j hb
+  rw [hevs, interp_append] at herr ⊢
+  exact step_chmod_ok prog ren defMode _ j.path mode herr
+
+end FilePostProcessors
 
 /-- Non-vacuity: a clean program that uses the unique-name generator behind its sanitiser, a user-style template
 that begins with empty lines, two different histories, a limiter: equal with the reset, different without. -/
